@@ -29,6 +29,29 @@ ASSUMPTIONS = ["ModuleMeta numbers controllers in definition order: generated on
 MM = "rv.modules.metamodule"
 
 
+def sync_method(repo: Repo, aliases: bool = False):
+    """`MetaModule.MappingArray.update_user_defined_controllers(metamodule)` as the rules read it.  When the static method only
+    delegates to a method of the metamodule (`metamodule.update_user_defined_controllers()`), that method is read through with the
+    parameter in place of `self`."""
+    from .. import inline as _inl
+    mm = repo.cls("MetaModule", module="rv.modules.metamodule")
+    ma = mm.nested.get("MappingArray")
+    upd = ma.methods.get("update_user_defined_controllers") if ma is not None else None
+    if upd is None:
+        return None
+    raw = getattr(ma.methods, "raw", ma.methods).get("update_user_defined_controllers", upd)
+    params = [a.arg for a in raw.args.args]
+    if params and not any(isinstance(n, ast.Attribute) and isinstance(n.ctx, ast.Store) and n.attr == "value_type" for n in ast.walk(upd)):
+        delegates = [c for c in ast.walk(raw) if isinstance(c, ast.Call) and isinstance(c.func, ast.Attribute) and isinstance(c.func.value, ast.Name)
+                     and c.func.value.id == params[0] and c.func.attr in mm.methods]
+        if delegates:
+            try:
+                return _inl.normalize(repo, ma, raw, aliases=aliases, receivers={params[0]: mm}, also=tuple({c.func.attr for c in delegates}))
+            except Exception:
+                pass
+    return _inl.normalize(repo, ma, raw, aliases=aliases) if aliases else upd
+
+
 def mapping_alignment_rule(repo: Repo, rep, P: str, rule: str):
     """update_user_defined_controllers pairs mapping i with user-defined controller i: the two sequences are walked in step from
     the start, unfiltered.  Dropping unmapped slots BEFORE the pairing shifts every later mapping onto an earlier controller."""
@@ -40,7 +63,7 @@ def mapping_alignment_rule(repo: Repo, rep, P: str, rule: str):
     if upd is None:
         return
     con = f"{mm.file.rel}:MetaModule.MappingArray.update_user_defined_controllers"
-    fn = _inl.normalize(repo, ma, upd, aliases=True)
+    fn = sync_method(repo, aliases=True)
     mp = fn.args.args[0].arg if fn.args.args else "metamodule"
     defs = single_defs(fn)
     stores = [n for n in ast.walk(fn) if isinstance(n, ast.Attribute) and isinstance(n.ctx, ast.Store) and n.attr == "value_type" and isinstance(n.value, ast.Name)]
@@ -117,6 +140,7 @@ def user_value_type_rule(repo: Repo, rep, P: str, rule: str):
     con = f"{rel}:MetaModule.MappingArray.update_user_defined_controllers"
     if upd is None:
         raise AnchorMissing("MetaModule.MappingArray.update_user_defined_controllers")
+    upd = sync_method(repo) or upd
     stores = [n for n in ast.walk(upd) if isinstance(n, ast.Assign) and any(isinstance(t, ast.Attribute) and t.attr == "value_type" for t in n.targets)]
     if not stores:
         rep.violation(f"{P}.{rule}", con, norm(upd)[:120], "user-defined controllers no longer receive the mapped controller's value type",
@@ -304,13 +328,38 @@ def naming(repo: Repo, rep, P: str):
         rep.ok(f"{P}.R1", f"{rel}:UserDefinedProxy.controller", "instance.user_defined[self.index]")
     else:
         rep.violation(f"{P}.R1", f"{rel}:UserDefinedProxy.controller", ctl[:120], "proxy k must resolve to the instance's k-th UserDefined", rel)
-    for meth, want in (("__get__", "ctl.__get__(instance, owner)"), ("__set__", "ctl.__set__(instance, value)"),
-                       ("attached", "self.controller(instance).attached(instance)"), ("instance_value_type", "self.controller(instance).value_type")):
-        src = norm(repo.own_method(px, meth))
-        if want in src:
-            rep.ok(f"{P}.R1", f"{rel}:UserDefinedProxy.{meth}", want, nontrivial=False)
-        else:
+    from ..packed import single_defs as _sd_px, resolve_names as _rn_px
+    ctl_ok = "return instance.user_defined[self.index]" in ctl
+
+    def per_instance(e: ast.expr, defs_) -> Optional[bool]:
+        """True: e denotes the instance's own UserDefined (instance.user_defined[self.index], directly or through controller());
+        False: it denotes something else that is recognisable (self, super(), a class-level table); None: not recognised."""
+        e = _rn_px(e, defs_)
+        if norm(e) == "instance.user_defined[self.index]":
+            return True
+        if isinstance(e, ast.Call) and norm(e.func) == "self.controller" and [norm(a) for a in e.args] == ["instance"]:
+            return True if ctl_ok else None
+        if norm(e) in ("self", "super()", "Controller", "type(self)") or norm(e).startswith(("super(", "instance.controllers[", "type(instance).")):
+            return False
+        return None
+    for meth, attr, is_call in (("__get__", "__get__", True), ("__set__", "__set__", True), ("attached", "attached", True),
+                                ("instance_value_type", "value_type", False)):
+        mfn = repo.own_method(px, meth)
+        src = norm(mfn)
+        d_ = _sd_px(mfn)
+        verdicts = []
+        for n_ in ast.walk(mfn):
+            if isinstance(n_, ast.Attribute) and n_.attr == attr and isinstance(n_.ctx, ast.Load) and norm(n_.value) not in ("self",) or \
+                    (isinstance(n_, ast.Attribute) and n_.attr == attr and isinstance(n_.ctx, ast.Load) and meth != attr):
+                if is_call and not any(isinstance(c_, ast.Call) and c_.func is n_ for c_ in ast.walk(mfn)):
+                    continue
+                verdicts.append(per_instance(n_.value, d_))
+        if verdicts and all(v is True for v in verdicts):
+            rep.ok(f"{P}.R1", f"{rel}:UserDefinedProxy.{meth}", f"<per-instance controller>.{attr}", nontrivial=False)
+        elif any(v is False for v in verdicts):
             rep.violation(f"{P}.R1", f"{rel}:UserDefinedProxy.{meth}", src[:120], f"proxy.{meth} must delegate to the per-instance controller", rel)
+        else:
+            rep.inconclusive(f"{P}.R1", f"{rel}:UserDefinedProxy.{meth}", src[:120], f"what proxy.{meth} delegates to is not recognised", rel)
     # (c) reader key list
     mr = repo.cls("ModuleReader", module="rv.readers.module")
     from .. import order
@@ -524,7 +573,7 @@ def labels_and_project(repo: Repo, rep, P: str):
     # user-controller value type is the target's per-instance type (unit-dependent ranges, nested user controllers)
     user_value_type_rule(repo, rep, P, "R2")
     mapping_alignment_rule(repo, rep, P, "R2")
-    upd = mm.nested["MappingArray"].methods.get("update_user_defined_controllers")
+    upd = sync_method(repo)
     us = norm(upd) if upd else ""
     if "user_defined_controller.default = controller.default" in us and "mod.controller_values[controller.name]" in us:
         rep.ok(f"{P}.R2", f"{rel}:MetaModule.MappingArray.update_user_defined_controllers", "default and current value copied from the target", nontrivial=False)
